@@ -1,4 +1,5 @@
 let () =
   match Array.to_list Sys.argv with
   | [_; "t1"; inp; outp] -> T1.run inp outp
+  | [_; "t2"; inp; outp] -> T2.run inp outp
   | _ -> prerr_endline "usage: modelrun t1 <in> <out>"; exit 2
